@@ -87,6 +87,18 @@ Qed.
 (* sending one message (any type but Logon) from a ready state *)
 Definition ready (s : sess) : Prop := is_logged_on (s_st s) = true /\ s_out_open s = true /\ s_to_send s = [].
 
+Lemma sq_enq : forall x m, s_out_open x = true -> s_to_send x = [] ->
+  let y := send_queued (enqueue x m) in
+  s_wire y = m :: s_wire x /\ s_out_open y = true /\ s_to_send y = [] /\ s_st y = s_st x.
+Proof.
+  intros x m Ho Hq. unfold send_queued, enqueue, upd_to_send. cbn [s_out_open s_to_send]. rewrite Ho, Hq.
+  cbn [app rev upd_logs s_wire s_out_open s_to_send s_st s_cbs]. repeat split; try reflexivity; try exact Ho.
+Qed.
+
+Lemma persist_keeps : forall x m, s_out_open (persist x m) = s_out_open x /\ s_to_send (persist x m) = s_to_send x
+  /\ s_st (persist x m) = s_st x /\ s_wire (persist x m) = s_wire x.
+Proof. intros x m. unfold persist. destruct (c_disable_persist (s_cfg x)); repeat split; reflexivity. Qed.
+
 Lemma send_ready : forall s t hdr body ir, ready s -> beq_bytes t T_LOGON = false ->
   let s' := send_in_reply_to s t hdr body ir in
   ready s' /\ s_st s' = s_st s
@@ -94,9 +106,15 @@ Lemma send_ready : forall s t hdr body ir, ready s -> beq_bytes t T_LOGON = fals
 Proof.
   intros s t hdr body ir (Hl & Ho & Hq) Hn. unfold send_in_reply_to. rewrite Hl. cbn [negb].
   unfold prep. rewrite Hn. cbn [andb].
-  destruct s as [c st snd tgt msgs q oo io ib sr hb ps stp cbs w cl]. cbn in Hl, Ho, Hq. subst oo q.
-  unfold ready. destruct (is_admin t); unfold send_queued, enqueue, persist, log_cb, upd_logs, upd_store, upd_to_send; cbn;
-    destruct (c_disable_persist c); cbn; rewrite ?Hl; auto.
+  assert (Hfin : forall x m, s_out_open x = s_out_open s -> s_to_send x = s_to_send s -> s_st x = s_st s -> s_wire x = s_wire s ->
+            let y := send_queued (enqueue (persist x m) m) in
+            ready y /\ s_st y = s_st s /\ s_wire y = m :: s_wire s).
+  { intros x m E1 E2 E3 E4. destruct (persist_keeps x m) as (P1 & P2 & P3 & P4).
+    destruct (sq_enq (persist x m) m) as (Q1 & Q2 & Q3 & Q4); [rewrite P1, E1; exact Ho | rewrite P2, E2; exact Hq|].
+    unfold ready. rewrite Q4, P3, E3, Q1, P4, E4. auto. }
+  destruct (is_admin t).
+  - apply (Hfin (log_cb s (CbToAdmin t))); reflexivity.
+  - apply (Hfin (log_cb s (CbToApp (s_snd s) false))); reflexivity.
 Qed.
 
 (* the wire holds only well-shaped Rejects *)
